@@ -121,6 +121,10 @@ def scenario(desc):
                 return b"c"
             c.auto_points = on_hit
             env = s.env(c.env(points=["slot.", "run.", "result.", "pointer."]))
+            if crash["kind"] == "call":
+                # crash points at system-call granularity (LD_PRELOAD shim): the run kills itself just before / just
+                # after the n-th file-system call that concerns a path containing `match`
+                env.update({"LD_PRELOAD": common.CRASH_AT_CALL_SO, "MRV_CRASH_MATCH": crash["match"], "MRV_CRASH_AT": str(crash["n"]), "MRV_CRASH_WHEN": crash["when"]})
             victim_args = ["run", "-c", "build"] if detected else ["run", "-c", "build", "-t", "a", "b", "c", "--deps"]
             if desc.get("victim") == "two-commands":
                 victim_args = ["run", "-c", "build", "build", "-t", "a", "b", "c", "--deps"]   # the command given twice: six executions
@@ -157,14 +161,29 @@ def scenario(desc):
                 c.kill(p, group=True)
                 c.wait(lambda: p.done(), 5)
                 viol.append(("victim-hung", "victim run did not end"))
+            if crash["kind"] == "call":
+                realised = p.code is not None and p.code < 0
             if crash["kind"] == "point":
                 realised = crashed["done"] and p.code is not None and p.code < 0
             victim_completed = p.code in (0, 1)
             victim_doc = sc.Result(p.code, p.out, p.err).json() if victim_completed else None
         finally:
             c.close()
+        busy = None
+        if desc.get("lock_busy"):
+            # while the survivors are looked at, something else is listening on the lock address (another
+            # repository configured with the same address is in the middle of an update): reading results
+            # and logs takes no lock and must not care
+            import socket
+            busy = socket.socket()
+            busy.setsockopt(socket.SOL_SOCKET, socket.SO_REUSEADDR, 1)
+            try:
+                busy.bind(("127.0.0.1", r.lock_port))
+                busy.listen(8)
+            except OSError as e:
+                raise common.EngineError("could not occupy the lock address: %s" % e)
         # ---- what must survive
-        label = "max=%d%s prefix=%d crash=%s" % (maxr, "" if prefix_max == maxr else " (was %d)" % prefix_max, k, crash.get("name") or "kill@%s" % (crash.get("state"),))
+        label = "max=%d%s prefix=%d crash=%s" % (maxr, "" if prefix_max == maxr else " (was %d)" % prefix_max, k, crash.get("name") or ("%s call #%d on *%s*" % (crash["when"], crash["n"], crash["match"]) if crash["kind"] == "call" else "kill@%s" % (crash.get("state"),)))
         if victim_completed and victim_doc is not None:
             # the crash point was after the run had fully completed (e.g. kill lost the race): the
             # victim is then simply the latest completed run
@@ -175,7 +194,8 @@ def scenario(desc):
         # run.post_pointer / pointer.post_write: every record of the victim is already on disk, so either
         # answer (previous run, or the victim itself) is a state of "the last completed run"
         after_all_writes = (crash["kind"] == "point" and crash["name"] in ("pointer.post_write", "run.post_pointer")) or \
-            (crash["kind"] == "kill" and tuple(crash["state"]) == (3, 3))  # uncontrolled instant after the last child
+            (crash["kind"] == "kill" and tuple(crash["state"]) == (3, 3)) or \
+            crash["kind"] == "call"   # (which call is the last write is not known here: either answer, but a consistent one)
         if after_all_writes:
             v1 = observers(r, want_doc, want_logs, label)
             if v1:
@@ -192,6 +212,8 @@ def scenario(desc):
             viol.append(("checkpoint-changed", "%s: checkpoint show %s vs %s" % (label, cs, cp_show)))
         if open(cp_file, "rb").read() != cp_bytes:
             viol.append(("checkpoint-file-changed", label))
+        if busy is not None:
+            busy.close()
         # ---- the next run succeeds normally and becomes the latest
         r.set_script("a", "build", prefix_script(99))
         nr = r.mr("run", "-c", "build", "-t", "a", env=r.trace_env())
@@ -237,8 +259,10 @@ def scenarios(tier):
     # the last completed run before the victim was a run of nothing
     for name in POINTS:
         out.append({"max": 2, "prefix": 1, "last_noop": True, "crash": {"kind": "point", "name": name}})
+        out.append({"max": 2, "prefix": 1, "lock_busy": True, "crash": {"kind": "point", "name": name}})
     for st in KILL_STATES:
         out.append({"max": 2, "prefix": 1, "last_noop": True, "crash": {"kind": "kill", "state": list(st)}})
+        out.append({"max": 3, "prefix": 3, "lock_busy": True, "crash": {"kind": "kill", "state": list(st)}})
         out.append({"max": 3, "prefix": 2, "last_noop": True, "crash": {"kind": "kill", "state": list(st)}})
     # a victim that executes its command twice (six children): crash points are hit in the second pass too
     for name in POINTS:
@@ -253,6 +277,13 @@ def scenarios(tier):
         out.append({"max": 2, "prefix": 1, "victim": "detected", "crash": {"kind": "point", "name": name}})
     for st in KILL_STATES:
         out.append({"max": 2, "prefix": 1, "victim": "detected", "crash": {"kind": "kill", "state": list(st)}})
+    # crash points at system-call granularity, wherever the guarded points are: before and after each of the first
+    # file-system calls on the run pointer and on the result record (thorough: on anything below the output directory)
+    for (match, nmax) in ([("/tracking/run.json", 8), ("/result.json", 6)] if tier == "quick" else [("/tracking/", 14), ("/result.json", 8), ("/monorail-out/", 160)]):
+        for n in range(1, nmax + 1):
+            for when in ("pre", "post"):
+                for (maxr_, k_) in ([(2, 1)] if tier == "quick" or match == "/monorail-out/" else [(2, 1), (2, 2), (3, 3)]):
+                    out.append({"max": maxr_, "prefix": k_, "crash": {"kind": "call", "match": match, "n": n, "when": when}})
     # retention setting changed between runs: prefix made with a larger (or smaller) max_retained_runs
     for (pm, k, maxr) in ([(5, 4, 3), (5, 5, 2), (2, 2, 4)] if tier == "quick" else [(5, 4, 3), (5, 5, 2), (5, 3, 2), (2, 2, 4), (3, 3, 5), (6, 6, 3)]):
         for name in POINTS:
@@ -272,7 +303,7 @@ def run(prop, tier):
            "unrealised_crash_points": sum(r["unrealised"] for r in results),
            "violations": [v for r in results for v in r["violations"]],
            "samples": [r["sample"] for r in results[:: max(1, len(results) // 5)]][:6], "exhaustive": True,
-           "rule": "prefix histories of {0, 1, max, max+1} completed runs x max_retained_runs in {2} (thorough {2,3}) x a victim run (2 groups, 3 controlled children, -t a b c --deps) terminated at: every guarded point in run.rs/tracking.rs (%s; abort at the first hit) and SIGKILL at the child states (arrived, exited) in %s; plus prefixes made under a different max_retained_runs that is edited (to a value >= 2) before the victim run; a checkpoint with pending entries is installed first; after the crash: result show and log show == last completed run (or report none), checkpoint show and file unchanged, the next run exits 0 and becomes the latest; non-trivial = scenarios whose crash point was actually realised" % (", ".join(POINTS), KILL_STATES)}
+           "rule": "prefix histories of {0, 1, max, max+1} completed runs x max_retained_runs in {2} (thorough {2,3}) x a victim run (2 groups, 3 controlled children, -t a b c --deps) terminated at: every guarded point in run.rs/tracking.rs (%s; abort at the first hit) and SIGKILL at the child states (arrived, exited) in %s; plus the survivors looked at while something else is listening on the lock address; plus self-inflicted SIGKILL just before and just after each of the first file-system calls (open, write, rename, unlink, ...; LD_PRELOAD shim) that concern the run pointer and the result record (thorough: anything below the output directory); plus prefixes made under a different max_retained_runs that is edited (to a value >= 2) before the victim run; a checkpoint with pending entries is installed first; after the crash: result show and log show == last completed run (or report none), checkpoint show and file unchanged, the next run exits 0 and becomes the latest; non-trivial = scenarios whose crash point was actually realised" % (", ".join(POINTS), KILL_STATES)}
     by = {}
     for v in agg["violations"]:
         by[v["sig"]] = by.get(v["sig"], 0) + 1
